@@ -232,8 +232,10 @@ namespace igris
                     break;
 
                 default:
-                    _line.newdata(c);
-                    retcode = READLINE_ECHOCHAR;
+                    // Символ, не поместившийся в строку, не должен
+                    // отображаться.
+                    ret = _line.newdata(c);
+                    retcode = ret ? READLINE_ECHOCHAR : READLINE_OVERFLOW;
                     break;
                 }
                 break;
